@@ -232,6 +232,7 @@ func (s *IOFault) Run(env *core.Env, st *core.Stats) (vs []core.Violation) {
 			return vs
 		}
 		consumed := cr.N
+		baseSig := outcomeSig(base)
 		readFault := func(k int, withData bool) bool {
 			fr := &simio.FailReader{Data: sf.data, K: k, WithData: withData, Err: s.errValue()}
 			o := readFrom(fr, S, false)
@@ -250,6 +251,12 @@ func (s *IOFault) Run(env *core.Env, st *core.Stats) (vs []core.Violation) {
 			if o.call.panicked || o.call.timeout {
 				vs = append(vs, core.V("panic", panicKey(o.call.panicMsg), "ReadFrom with failing source at byte %d: %s", k, o.call.panicMsg))
 				return false
+			}
+			if o.err == nil && outcomeSig(o) == baseSig {
+				// the source failed in bytes the library may take (read-ahead) but does not need:
+				// the value is the complete, fault-free one, not "a silently shortened file"
+				st.Probe("read-fault-in-bytes-not-needed")
+				return true
 			}
 			if o.err == nil {
 				vs = append(vs, core.V("read-error-swallowed", "read:"+keyRegion(regionAt(k)),
